@@ -76,7 +76,7 @@ __CPROVER_ensures(IMP(WHEN(gcd2, LEM(LS_GCD2(X, Y, R))), IS_GCD(R, X, Y) && GCD_
 void h_gcd2(void){ IN(Z, a); IN(Z, b); HGHOSTS; C c; Z r; _ZNK4ikos10congruenceINS_8z_numberEE3gcdES1_S1_(&r, &c, &a, &b); REACH; }
 /* BOUNDED: the same contract with the real recursive gcd_helper in line (Euclid on values below 2^4 makes at most 6
  * recursive calls) */
-//@check id=gcd2_unwound fn=_ZNK4ikos10congruenceINS_8z_numberEE3gcdES1_S1_ tag=gcd2 harness=h_gcd2 props=C08 defs=ZM_SMALL=16,ZBITS=3,CTBITS=4 unwind=8 cbmc=--unwindset,zs_udivrem.0:15,--unwindset,s_udivrem.0:15 backends=minisat,kissat first_timeout=400 timeout=600
+//@check id=gcd2_unwound fn=_ZNK4ikos10congruenceINS_8z_numberEE3gcdES1_S1_ tag=gcd2 harness=h_gcd2 props=C08 noauto=1 defs=ZM_SMALL=16,ZBITS=3,CTBITS=4 unwind=8 cbmc=--unwindset,zs_udivrem.0:15,--unwindset,s_udivrem.0:15 backends=minisat,kissat first_timeout=400 timeout=600
 /* gcd(x, y, z) = gcd(x, gcd(y, z)).  That the result divides y and z comes from GCD_LOWER of the inner call at
  * g_e = result: the enforced form is guarded by that alignment. */
 //@check id=gcd3 fn=_ZNK4ikos10congruenceINS_8z_numberEE3gcdES1_S1_S1_ props=C08 replace=_ZNK4ikos10congruenceINS_8z_numberEE3gcdES1_S1_ backends=minisat,kissat first_timeout=900 timeout=900
